@@ -47,6 +47,16 @@ var c18FileSets = []struct {
 	// with "bers.txt" but is too short to match
 	{"star-in-the-middle", "numb*bers.txt", []string{"numb-bers.txt"}},
 	{"in-a-subdirectory", "sub/*n*.txt", []string{"sub/inner.txt", "sub/nn.txt"}},
+	// lnk is a symbolic link to sub: a wildcard directory segment goes through it like through a directory
+	{"through-a-linked-directory", "l*/nn.txt", []string{"lnk/nn.txt"}},
+}
+
+// c18Real names the file behind a fixture name (lnk -> sub).
+func c18Real(n string) string {
+	if strings.HasPrefix(n, "lnk/") {
+		return "sub/" + strings.TrimPrefix(n, "lnk/")
+	}
+	return n
 }
 
 var c18Contents = map[string]string{
@@ -84,6 +94,7 @@ func c18Populate(dir string) {
 		os.MkdirAll(filepath.Dir(filepath.Join(dir, n)), 0o755)
 		os.WriteFile(filepath.Join(dir, n), []byte(s), 0o644)
 	}
+	os.Symlink("sub", filepath.Join(dir, "lnk"))
 }
 
 func stripDir(v any, dir string) any {
@@ -103,7 +114,7 @@ func stripDir(v any, dir string) any {
 func C18(r *drv.Run) {
 	r.BuildWorker()
 	r.BuildCLI()
-	r.Rule = "the built vore binary in scratch directories over the cross product {-com, -src} x 5 file sets (one file, several by glob, none matching, a glob with the star in the middle of a name, a glob into a sub-directory) x {none, -json, -formatted-json} x {-json-file} x {-formatted-json-file} x {default, NEW, NOTHING, OVERWRITE} x {-no-output} x {find, replace, two statements, failing program} (thorough: all 3 840; quick: a seed-selected 400) plus 14 invalid invocations and 19 unknown mode names (other letter cases, near misses, the engine's internal fourth mode CONFIRM, numbers, lists) each with a find and a replace program; a fifth of the -src invocations with the program arriving through a named pipe, a third of the invocations with longer JSON output files left over from an earlier run, a quarter with the -files pattern made absolute, two thirds with their flag groups in a seed-chosen order and spelling (-flag value, --flag value, -flag=value). Oracle: exit status; stdout under -json/-formatted-json is exactly one JSON document equal (after decoding) to the library's result for the same program and files, computed by a worker through RunFiles; the named JSON files likewise; replace mode honoured with NEW as default and outputs equal to the splice (directory snapshot before/after); invalid invocations, unknown modes and compile errors exit non-zero with a message and an empty snapshot diff. Non-trivial = invocation with >= 1 match whose JSON/stdout/file effects were all verified; distinct by configuration."
+	r.Rule = "the built vore binary in scratch directories over the cross product {-com, -src} x 6 file sets (one file, several by glob, none matching, a glob with the star in the middle of a name, a glob into a sub-directory, a wildcard directory segment that selects a symbolic link to a directory) x {none, -json, -formatted-json} x {-json-file} x {-formatted-json-file} x {default, NEW, NOTHING, OVERWRITE} x {-no-output} x {find, replace, two statements, failing program} (thorough: all 4 608; quick: a seed-selected 480) plus 14 invalid invocations and 19 unknown mode names (other letter cases, near misses, the engine's internal fourth mode CONFIRM, numbers, lists) each with a find and a replace program; a fifth of the -src invocations with the program arriving through a named pipe, a third of the invocations with longer JSON output files left over from an earlier run, a quarter with the -files pattern made absolute, two thirds with their flag groups in a seed-chosen order and spelling (-flag value, --flag value, -flag=value). Oracle: exit status; stdout under -json/-formatted-json is exactly one JSON document equal (after decoding) to the library's result for the same program and files, computed by a worker through RunFiles; the named JSON files likewise; replace mode honoured with NEW as default and outputs equal to the splice (directory snapshot before/after); invalid invocations, unknown modes and compile errors exit non-zero with a message and an empty snapshot diff. Non-trivial = invocation with >= 1 match whose JSON/stdout/file effects were all verified; distinct by configuration."
 	r.Assumptions = []string{
 		"with -no-output only exit status and file effects of the replace mode are demanded (the documentation does not say whether JSON files are still written)",
 		"zero matches / no files: exit 0 and no JSON demanded (the property's 'when there is at least one match')",
@@ -132,7 +143,7 @@ func C18(r *drv.Run) {
 		var texts [][]byte
 		for _, n := range c18FileSets[k.f].files {
 			paths = append(paths, filepath.Join(tmpl, n))
-			texts = append(texts, []byte(c18Contents[n]))
+			texts = append(texts, []byte(c18Contents[c18Real(n)]))
 		}
 		c := wire.Case{Op: "runfiles", Src: []byte(c18Progs[k.p].src), Files: paths, Mode: "NOTHING", Texts: texts}
 		return &drv.Item{Case: c, Check: func(res *wire.Result) {
@@ -180,7 +191,7 @@ func C18(r *drv.Run) {
 			j := rng.Intn(i + 1)
 			cfgs[i], cfgs[j] = cfgs[j], cfgs[i]
 		}
-		cfgs = cfgs[:400]
+		cfgs = cfgs[:480]
 	} else {
 		r.Exhaustive = true
 	}
@@ -370,9 +381,9 @@ func c18Run(r *drv.Run, i int, cfg c18Config, lib []wire.Match, libStr [][]wire.
 	if prog.replace {
 		for _, n := range fs.files {
 			if eff == "NEW" {
-				allowed[n+".vored"] = true
+				allowed[c18Real(n)+".vored"] = true
 			} else if eff == "OVERWRITE" {
-				allowed[n] = true
+				allowed[c18Real(n)] = true
 			}
 		}
 	}
@@ -401,7 +412,7 @@ func c18Run(r *drv.Run, i int, cfg c18Config, lib []wire.Match, libStr [][]wire.
 	}
 	if prog.replace && eff != "NOTHING" && len(fs.files) > 0 {
 		for fi, n := range fs.files {
-			want, ok := splice([]byte(c18Contents[n]), libStr[fi])
+			want, ok := splice([]byte(c18Contents[c18Real(n)]), libStr[fi])
 			if !ok {
 				continue
 			}
@@ -416,7 +427,7 @@ func c18Run(r *drv.Run, i int, cfg c18Config, lib []wire.Match, libStr [][]wire.
 			}
 			if eff == "NEW" {
 				src, _ := os.ReadFile(filepath.Join(dir, n))
-				if string(src) != c18Contents[n] {
+				if string(src) != c18Contents[c18Real(n)] {
 					viol("NEW-changed-source", map[string]any{"file": n})
 					return
 				}
